@@ -535,7 +535,7 @@ func (l *irLoader) unwrapFuncRefExpr(filter ir.FilterExpr) (*types.Func, error) 
 
 	n, err := parser.ParseExpr(s)
 	if err != nil {
-		return nil, err
+		return nil, l.errorf(filter.Line, err, "parse func ref expr")
 	}
 
 	switch n := n.(type) {
